@@ -175,7 +175,8 @@ Inductive codec : Type := Gzip | Zstd | Bzip2 | Xz.
    neither can complete one of the suffixes below, so on the suffix tests both agree. *)
 Definition lower (c : N) : N := if (65 <=? c) && (c <=? 90) then c + 32 else c.
 
-Definition ends_with (s suf : list N) : bool := starts_with (rev suf) (rev s).
+(* str::ends_with, on the reversed strings (rev_append s [] = rev s, in linear time) *)
+Definition ends_with (s suf : list N) : bool := starts_with (rev suf) (rev_append s []).
 
 Definition ext_gz : list N := [46; 103; 122].             (* .gz *)
 Definition ext_gzip : list N := [46; 103; 122; 105; 112]. (* .gzip *)
